@@ -49,7 +49,7 @@ func c13AggOne(ctx *core.Ctx, ref core.CaseRef, r *rand.Rand) {
 	}
 	cd := conds[ref.Index%len(conds)]
 	c := &c13AggCase{CaseRef: ref, Cond: cd.text, N: pick(r, []int{1, 1, 2, 3})}
-	c.SQL = fmt.Sprintf("SELECT last_value(id) AS id, count(*) AS c, sum(CASE WHEN %s THEN 1 ELSE 0 END) AS m, max(u) IS NULL AS mn, max(u) IS NOT NULL AS mnn FROM stream GROUP BY CountingWindow(%d)", cd.text, c.N)
+	c.SQL = fmt.Sprintf("SELECT last_value(id) AS id, count(*) AS c, sum(CASE WHEN %s THEN 1 ELSE 0 END) AS m, max(u) IS NULL AS mn, max(u) IS NOT NULL AS mnn, max(u) IS NULL OR count(*) > 100 AS mo, NOT (max(u) IS NULL) AND count(*) > 0 AS ma FROM stream GROUP BY CountingWindow(%d)", cd.text, c.N)
 	nb := 6 + r.Intn(10)
 	texts := []string{"a", "ab", "b", "a.b", "", "abc", "ba", "x.y"}
 	for i := 1; i <= nb*c.N; i++ {
@@ -119,6 +119,16 @@ func c13AggOne(ctx *core.Ctx, ref core.CaseRef, r *rand.Rand) {
 			a2 := map[string]string{"site": "select_over_aggregate", "cond": "isnotnull"}
 			ctx.Violate(core.Violation{Kind: "aggselect.wrong_answer", Attrs: a2,
 				Detail: fmt.Sprintf("batch of rows %d..%d: `max(u) IS NOT NULL` = %#v, expected %v\n  sql: %s", b*c.N+1, (b+1)*c.N, out["mnn"], anyU, c.SQL), Case: c})
+			return
+		}
+		if go1, ok := out["mo"].(bool); !ok || go1 != !anyU {
+			ctx.Violate(core.Violation{Kind: "aggselect.wrong_answer", Attrs: map[string]string{"site": "select_over_aggregate", "cond": "isnull_or"},
+				Detail: fmt.Sprintf("batch of rows %d..%d: `max(u) IS NULL OR count(*) > 100` = %#v, expected %v\n  sql: %s", b*c.N+1, (b+1)*c.N, out["mo"], !anyU, c.SQL), Case: c})
+			return
+		}
+		if ga, ok := out["ma"].(bool); !ok || ga != anyU {
+			ctx.Violate(core.Violation{Kind: "aggselect.wrong_answer", Attrs: map[string]string{"site": "select_over_aggregate", "cond": "not_isnull_and"},
+				Detail: fmt.Sprintf("batch of rows %d..%d: `NOT (max(u) IS NULL) AND count(*) > 0` = %#v, expected %v\n  sql: %s", b*c.N+1, (b+1)*c.N, out["ma"], anyU, c.SQL), Case: c})
 			return
 		}
 		if !numEq(out["m"], want) {
